@@ -278,7 +278,7 @@ theorem wf_deleteRepWithCheck {s : State} (hw : WF s) {v : Nat}
             | _ => rfl
           simp only [repOf, destroyRep_slots_noOwn _ r _ R1 hR1 hnk]; exact hv1
       obtain ⟨R3, hR3⟩ := hI3.repAlive v r hv3
-      refine ⟨inv_swapVar hI3 none hv3 hR3 (hP3 R3 hR3) (by intro n hn; cases hn), ?_, ?_⟩
+      refine ⟨inv_swapVar hI3 hv3 hR3 (hP3 R3 hR3), ?_, ?_⟩
       · exact idle_swapVar (idle_casc hC3 hw1.idle) v r none
       · refine held_swapVar hI3 ?_ hv3
         intro x X hX
@@ -355,9 +355,38 @@ theorem bindFun_noRef (r : Nat) (f : Fun) (s : State) (hf : f.ref = none) :
   | sref fid v => simp [Fun.ref] at hf
   | own fid v t => cases t <;> rfl
 
+theorem orphan_modRep {s : State} (q : Nat) (g : Rep → Rep) (r : Nat) :
+    Orphan (s.modRep q g) r ↔ Orphan s r := by
+  unfold Orphan; simp only [repOf_modRep]
+
 theorem inv_setPar {s : State} (h : Inv s) {n q v fid : Nat} {N : Rep} (hn : s.reps n = some N)
     (hf : N.fn = some (.sref fid v)) (hq : repOf s v = some q) : Inv (s.modRep q (setPar n)) := by
-  inv_auto h with [setPar_fn, setPar_cbs, setPar_parent]
+  refine { repAlive := ?_, repUniq := ?_, connReg := ?cr, cbsConn := ?cc, regUniq := ?_, cbsNodup := ?_,
+           parentOk := ?_, trkReg := ?_, trkEnt := ?_, trkNodup := ?_, refOk := ?_, ownOk := ?_, repBound := ?_ }
+  case cr =>
+    intro c w hcw
+    rw [conns_modRep] at hcw
+    obtain ⟨r, R, hR, hm, hor⟩ := h.connReg c w hcw
+    refine ⟨r, if r = q then setPar n R else R, ?_, ?_, ?_⟩
+    · rw [reps_modRep]
+      by_cases hrq : r = q
+      · subst hrq; simp [hR]
+      · simp [hrq, hR]
+    · by_cases hrq : r = q <;> simp [hrq, setPar_cbs, hm]
+    · rw [repOf_modRep, orphan_modRep]; exact hor
+  case cc =>
+    intro r R c hR hm
+    rw [reps_modRep] at hR
+    have : ∃ W, s.reps r = some W ∧ c ∈ W.cbs := by
+      by_cases hrq : r = q
+      · simp only [hrq, if_true, Option.map_eq_some_iff] at hR
+        obtain ⟨W, hW, rfl⟩ := hR
+        exact ⟨W, by rw [hrq]; exact hW, by rw [setPar_cbs] at hm; exact hm⟩
+      · rw [if_neg hrq] at hR; exact ⟨R, hR, hm⟩
+    obtain ⟨W, hW, hmW⟩ := this
+    obtain ⟨w, hw, hor⟩ := h.cbsConn r W c hW hmW
+    exact ⟨w, by rw [conns_modRep]; exact hw, by rw [repOf_modRep, orphan_modRep]; exact hor⟩
+  all_goals inv_clause h with [setPar_fn, setPar_cbs, setPar_parent]
 
 theorem inv_allocBind {s : State} (hw : WF s) (c : Bool) {f : Fun} (hf : FunOk s f) :
     Inv (allocBind c f s) := by
@@ -374,8 +403,8 @@ theorem inv_allocBind {s : State} (hw : WF s) (c : Bool) {f : Fun} (hf : FunOk s
     | none => simp only []; inv_auto h
     | some t =>
       simp only []
-      refine { repAlive := ?_, repUniq := ?_, connReg := ?_, cbsConn := ?_, cbsNodup := ?_, parentOk := ?_,
-               trkReg := ?_, trkEnt := ?te, trkNodup := ?_, refOk := ?_, ownOk := ?_, repBound := ?_ }
+      refine { repAlive := ?_, repUniq := ?_, connReg := ?_, cbsConn := ?_, regUniq := ?_, cbsNodup := ?_,
+               parentOk := ?_, trkReg := ?_, trkEnt := ?te, trkNodup := ?_, refOk := ?_, ownOk := ?_, repBound := ?_ }
       case te =>
         intro t' T r ht hm
         simp only [slotg_simp] at ht ⊢
